@@ -888,18 +888,20 @@ fn check_sink(
                 complain(format!("uset out of bounds at {oob:?} (buffer length {b})"));
             }
             if !twice.is_empty() {
-                complain(format!("slots written twice: {twice:?}"));
+                // wasteful (the first value is leaked) but every slot ends up filled: the
+                // property does not forbid it
+                st.hit("buffer_slot_written_twice");
             }
             if result.is_err() {
-                if let Some(i) = slots.iter().position(|s| !untouched(s)) {
+                // "reports a length mismatch without partial undefined state": some but not
+                // all slots written is the partial state the property forbids
+                let written = slots.iter().filter(|s| !untouched(s)).count();
+                if written > 0 && written < b {
                     complain(format!(
-                        "length mismatch reported (stream {m}, buffer {b}) but slot {i} was written"
+                        "length mismatch reported (stream {m}, buffer {b}) after {written} of {b} slots had been written"
                     ));
-                }
-                if let Some(l) = log {
-                    if !l.is_empty() {
-                        complain(format!("length mismatch reported but uset was called at {l:?}"));
-                    }
+                } else if written == b && b > 0 {
+                    st.hit("mismatch_reported_after_filling_every_slot");
                 }
             } else if b > 0 {
                 for i in 0..b {
@@ -913,11 +915,7 @@ fn check_sink(
                         break;
                     }
                 }
-                if let Some(l) = log {
-                    if l.len() != b {
-                        complain(format!("{} uset calls for a buffer of length {b}", l.len()));
-                    }
-                }
+                let _ = log;
             }
         },
         (other, _) => {
